@@ -189,7 +189,9 @@ CLAIMED["C10"] = dict(
           "paragraph content); C10_reply_shown_with_thread (whenever the reader writes a comment into a metadata block, every "
           "comment whose parent it is has its line in that block); C10_new_comment_read_back (layers E+D: the reader's comment map "
           "of the document add_comment produced has the new id with exactly that text and the session's author, whatever the "
-          "document held before). " + ENGINE_TIE +
+          "document held before); C10_commented_insertion / _deletion / _replacement_end_to_end (the composition: the raw view of a "
+          "paragraph that holds the engine's shape, read with the comment map of the resulting document, has a metadata block "
+          "built from a snapshot with the change open and with a line [Com:id] for the new comment). " + ENGINE_TIE +
           "Oracle: every applied commented edit (replacement, insertion, deletion, multi-line, heading) has exactly one "
           "new comment anchored on its own marks and shown with them in the raw view; replies threaded and shown with "
           "their thread; unknown parents skipped."),
